@@ -6,8 +6,8 @@
 (* disjoint positions all occur.  The expected value is the generic        *)
 (* (vertex enumeration) intersection together with its exact measures.     *)
 (***************************************************************************)
-EXTENDS G3DBodies, G3DMeasure, TLC, Json
-CONSTANTS S, SA, OFF, BODIES1, BODIES2, T, SEED, NSHARD, GENK, NGEN
+EXTENDS G3DBodies, G3DMeasure, G3DAlg, TLC, Json
+CONSTANTS S, SA, OFF, BODIES1, BODIES2, T, SEED, NSHARD, GENK, NGEN, NL2
 VARIABLES ph, a, b, t, r      \* r: the exact intersection, computed once per case
 vars == <<ph, a, b, t, r>>
 \* three levels: first body, second body (untranslated), translation
@@ -29,6 +29,10 @@ ProbesAgree == ph = 3 => LET bb == B2 IN \A P \in Probes : Mem(P, r) <=> (Mem(P,
 \* the volume of the common part cannot exceed either operand's
 VolMonotone == ph = 3 =>
                  ((r.k = "Polyhedron" /\ a.k = "Polyhedron" /\ Small(r.vs, 30)) => RLeq(Measures(r).vol, Measures(a).vol))
+\* L2: the library's handlers for the body pairs, as written, give the exact intersection (checked on a shard: expensive)
+L2Refines == (ph = 3 /\ InShard3(a, b, t, SEED + 5, NL2)) =>
+               IF a.k = "Polyhedron" /\ b.k = "Polyhedron" THEN PolyhedronPolyhedronL2(a, B2) = Canon(r)
+               ELSE SameSet(L2Body(a, B2), r)
 Touch == IF r.k = "None" THEN "-" ELSE
          IF SameSet(r, B2) /\ \A P \in Vertices(B2) : PosClass(P, a) = "Interior" THEN "nested" ELSE
             IF \A P \in Vertices(r) : PosClass(P, a) # "Interior" /\ PosClass(P, B2) # "Interior" THEN "boundary" ELSE "overlap"
